@@ -114,6 +114,19 @@ def root_spelling_class(t):
     return ''
 
 
+def root_container_class(t):
+    if t[0] in ('replace', 'lin'):
+        return T.container_class(t[3])
+    if t[0] == 'der':
+        return 'how=' + t[3]
+    for c in t[1:]:
+        if isinstance(c, list) and c and isinstance(c[0], str):
+            r = root_container_class(c)
+            if r:
+                return r
+    return ''
+
+
 def close(got, want, tol):
     got = numpy.asarray(got)
     want = numpy.asarray(want)
@@ -219,7 +232,7 @@ def judge(variants, scheme, label, vals=(0,)):
             raise
         except Exception as e:
             if reject is None:
-                out.add('raises:{}:{}:{}'.format(lab, type(e).__name__, sc), 'construction raised {!r} although the reference value is defined'.format(e), _witness(t, scheme, vals[0], label))
+                out.add('raises:{}:{}:{}'.format(path, type(e).__name__, sc), 'construction raised {!r} although the reference value is defined'.format(e), _witness(t, scheme, vals[0], label))
             else:
                 out.rejected_by.add(type(e).__name__)
             continue
@@ -233,12 +246,13 @@ def judge(variants, scheme, label, vals=(0,)):
             extra = sorted(set(listed) - set(want))
             missing = sorted(names.get(k, k) for k in out.semdeps if names.get(k, k) not in listed)
             wrongtype = sorted(k for k in listed if k in want and listed[k] != want[k])
+            cc = root_container_class(t)
             if extra:
-                out.add('arguments-extra:{}:{}'.format(lab, sc), '.arguments lists {} but the result can only depend on {}'.format(extra, sorted(want)), _witness(t, scheme, vals[0], label))
+                out.add('arguments-extra:{}:{}'.format(path, cc), '.arguments lists {} but the result can only depend on {}'.format(extra, sorted(want)), _witness(t, scheme, vals[0], label))
             if missing:
-                out.add('arguments-missing:{}:{}'.format(lab, sc), '.arguments = {} does not list {} on which the value depends'.format(sorted(listed), missing), _witness(t, scheme, vals[0], label))
+                out.add('arguments-missing:{}:{}'.format(path, cc), '.arguments = {} does not list {} on which the value depends'.format(sorted(listed), missing), _witness(t, scheme, vals[0], label))
             if wrongtype:
-                out.add('arguments-type:{}:{}'.format(lab, sc), '.arguments has {} but the model says {}'.format({k: listed[k] for k in wrongtype}, {k: want[k] for k in wrongtype}), _witness(t, scheme, vals[0], label))
+                out.add('arguments-type:{}:{}'.format(path, cc), '.arguments has {} but the model says {}'.format({k: listed[k] for k in wrongtype}, {k: want[k] for k in wrongtype}), _witness(t, scheme, vals[0], label))
 
     if reject is not None:
         accepted = []
@@ -259,7 +273,7 @@ def judge(variants, scheme, label, vals=(0,)):
                         continue
                 except Exception:
                     pass
-            out.add('accepted:{}:{}:{}'.format(reject, lab, sc), 'must be rejected ({}) but evaluated to {}'.format(reject, fmt(v)), _witness(t, scheme, vals[0], label))
+            out.add('accepted:{}:{}'.format(reject, path), 'must be rejected ({}) but evaluated to {}'.format(reject, fmt(v)), _witness(t, scheme, vals[0], label))
         out.status = 'rejected'
         return out
 
@@ -284,13 +298,13 @@ def judge(variants, scheme, label, vals=(0,)):
                     values.append(ex)
         for (t, sc, g), v in zip(built, values):
             if isinstance(v, Exception):
-                out.add('raises:{}:{}:{}'.format(lab, type(v).__name__, sc), 'evaluation raised {!r} although the reference value is {}'.format(v, fmt(R)), _witness(t, scheme, vals[i], label))
+                out.add('raises:{}:{}:{}'.format(path, type(v).__name__, sc), 'evaluation raised {!r} although the reference value is {}'.format(v, fmt(R)), _witness(t, scheme, vals[i], label))
                 continue
             v = numpy.asarray(v)
             if v.shape != R.shape:
-                out.add('shape:{}:{}'.format(lab, sc), 'result has shape {} but the definition gives {}'.format(v.shape, R.shape), _witness(t, scheme, vals[i], label))
+                out.add('shape:{}'.format(path), 'result has shape {} but the definition gives {}'.format(v.shape, R.shape), _witness(t, scheme, vals[i], label))
             elif (v.dtype.kind in 'iu') != (facts.dtype == 'int') and facts.dtype in ('int', 'float'):
-                out.add('dtype:{}:{}'.format(lab, sc), 'result has dtype {} but the definition gives {}'.format(v.dtype, facts.dtype), _witness(t, scheme, vals[i], label))
+                out.add('dtype:{}'.format(path), 'result has dtype {} but the definition gives {}'.format(v.dtype, facts.dtype), _witness(t, scheme, vals[i], label))
             elif not close(v, R, tol):
                 mism.append((t, sc, v, R, vals[i]))
     if mism:
